@@ -1883,7 +1883,9 @@ where
             }
         };
 
-        if !node.order.is_empty() {
+        // the node is visited again when the JSON has duplicate keys: the first one wins, and
+        // its paths are counted only once
+        if !node.order.is_empty() && out[node.order[0]].is_none() {
             slice = self.read.slice_unchecked(start, self.read.index());
             let lv = LazyValue::new(slice.into(), status.into());
             for p in &node.order {
